@@ -122,6 +122,9 @@ func init() {
 	add("v1", v1, &ran[6])
 	add("v2", v2, &ran[7])
 	add("v3", v3, &ran[8])
+	// the same methods handed to Func as method expressions: plain functions whose first parameter is the receiver
+	add("Func((*T).M1)", (*T).M1, &ran[9])
+	add("Func((*T).MV)", (*T).MV, &ran[11])
 	addM := func(name, method string, me interface{}, ptr bool, r *int64) {
 		t := sigWithoutRecv(reflect.TypeOf(me))
 		targets = append(targets, &target{name: name, fn: me, typ: t, method: method, ptrRecv: ptr, variadic: t.IsVariadic(), ran: r})
@@ -234,6 +237,10 @@ func pool(t reflect.Type) []reflect.Value {
 	case reflect.Struct:
 		return mk(S2{}, S2{A: 1, B: true, C: "x"}, S2{A: 1, B: true, C: "y"})
 	case reflect.Ptr:
+		if t == reflect.TypeOf(&T{}) {
+			// receivers of method expressions: compared by pointee like any pointer
+			return mk(&recvA, &recvB, &recvA2)
+		}
 		return mk(nil, &one, &two, &oneB)
 	case reflect.Slice:
 		if t.Elem().Kind() == reflect.String {
@@ -248,6 +255,8 @@ func pool(t reflect.Type) []reflect.Value {
 	}
 	panic("no pool for " + t.String())
 }
+
+var recvA, recvB, recvA2 = T{N: 1}, T{N: 2}, T{N: 1}
 
 // eq is the reference equality of condition values (the judged domain of property C18)
 func eq(a, b reflect.Value) bool {
